@@ -18,7 +18,7 @@ from .sarr import SArr, assemble, concatenate_nested
 def _is_key(x, dsk):
     if isinstance(x, str):
         return x in dsk
-    if isinstance(x, tuple) and x and isinstance(x[0], str) and all(type(i) is int for i in x[1:]):
+    if isinstance(x, tuple) and x and isinstance(x[0], str) and all(type(i) in (int, str) for i in x[1:]):
         return x in dsk
     return False
 
@@ -51,10 +51,25 @@ class Runner:
         return v
 
     def _apply(self, func, args, kwargs):
+        import functools
+
+        if isinstance(func, functools.partial):
+            base = func.func
+            if getattr(base, "__symx_clone__", False) or getattr(base, "__name__", None) in self.kernels or \
+                    (getattr(base, "__module__", "") or "").startswith("numpy"):
+                kw = dict(func.keywords)
+                kw.update(kwargs)
+                return self._apply(base, list(func.args) + list(args), kw)
         name = getattr(func, "__name__", None)
+        if name == "apply" and (getattr(func, "__module__", "") or "").startswith("dask"):
+            f, a = args[0], (args[1] if len(args) > 1 else ())
+            kw = args[2] if len(args) > 2 else {}
+            return self._apply(f, list(a), dict(kw or {}))
         k = self.kernels.get(name)
         if k is not None:
             return k(*args, **kwargs)
+        if getattr(func, "__symx_clone__", False):
+            return func(*args, **kwargs)  # the repository's own (cloned) block function
         if any(isinstance(a, SArr) for a in args) or any(isinstance(a, SArr) for a in kwargs.values()) or \
                 any(isinstance(a, (list, tuple)) and _has_sarr(a) for a in args):
             mod = getattr(func, "__module__", "") or ""
@@ -88,7 +103,7 @@ class Runner:
             args = [self._eval(a, key) for a in t[1:]]
             return self._apply(t[0], args, {})
         if isinstance(t, tuple):
-            if _is_key(t, self.dsk) and not top:
+            if _is_key(t, self.dsk) and (not top or t != key):
                 return self.get(t, key)
             return tuple(self._eval(a, key) for a in t) if any(
                 isinstance(a, (Task, TaskRef, Alias, List, DataNode)) for a in t) else t
@@ -121,8 +136,17 @@ def _getter(a, b, asarray=True, lock=None):
     return a[b]
 
 
+def _full_like(a, fill_value, dtype=None, order="K", subok=True, shape=None):
+    import z3
+
+    if shape is None:
+        shape = a.shape
+    c = core.SymReal._r(fill_value)
+    return SArr(tuple(shape), lambda idx: c, None, None)
+
+
 KERNELS = dict(getitem=_getitem, getter=_getter, getter_nofancy=_getter, getter_inline=_getter,
-               concatenate3=concatenate_nested)
+               concatenate3=concatenate_nested, full_like=_full_like)
 SAFE_NAMES = {"add", "sub", "mul", "neg", "getitem", "transpose", "identity"}
 
 
